@@ -131,6 +131,17 @@ CHECKS = {
    note=TRUST + 'Assumed: get_field_value summarised as symbolic 16-bit integers per column; the lexer decides which characters are operators (outside); f64 % is fmod. '
         'Bounds: expressions of <= 5 (quick) / 7 (thorough) tokens; cache: ordered pairs from 8 representative expressions. Scalar function values are C16.',
    technique=TECH),
+ 'C12': dict(
+   level='translation_validation', design_ref='DESIGN.md §2.3, §5 C12', engine='relang',
+   text='Engine C: for every pattern of a bounded grammar the regex text produced by the real convert_glob_to_pattern / convert_like_to_pattern (native driver that '
+        '#[path]-includes the tree\'s glob.rs) is parsed into a z3 regular language and z3 decides, over all subject strings of any length over the alphabet of the '
+        'property, whether it differs from the textbook language of the pattern (* / ? resp. % / _, everything else literal, case-insensitive, whole-string). '
+        'Engine B: the String arm of the real Searcher::conforms runs symbolically from MIR with the regex cache left by one earlier evaluation: every operator takes the '
+        'documented decision and each negative operator complements its positive twin. Counterexamples are replayed through the real binary.',
+   note=TRUST + 'The pattern side is enumerated (all patterns of length <= 2 quick / <= 3 thorough over 2 plain symbols, 17 metacharacters and the four wildcards); the subject side '
+        'is symbolic and unbounded. Assumed: the regex crate implements its documented syntax (our RegLan translation of the emitted subset is cross-checked against the real '
+        'crate on random subjects every run); Regex::new / is_match uninterpreted in the evaluator family. Subjects exclude newline and `/`.',
+   technique='regex text of the real translators -> z3 RegLan equivalence (unbounded subjects); MIR symbolic execution + z3 for the evaluator arm'),
 }
 REASON_TODO = 'check not built yet in this session (planned: see DESIGN.md §5); not claimed until it exists'
 NA = {}
@@ -142,6 +153,7 @@ m = {
            'baseline_off_cmd': 'cd /repo && cargo test --workspace --no-fail-fast --offline', 'source_commits': [], 'add_only': True},
  'engines': [
    {'name': 'mirsym', 'path': 'lib/mirsym', 'serves_properties': sorted(CHECKS), 'kind_free_text': 'symbolic executor for rustc MIR (-Zunpretty=mir of the current tree) with contract models, z3 as the deciding step'},
+   {'name': 'relang', 'path': 'lib/relang.py', 'serves_properties': ['C12', 'C20'], 'kind_free_text': 'regex text emitted by the real translators (native driver over the tree sources) -> z3 regular-language equivalence over unbounded subjects'},
  ],
  'checks': [],
  'not_applicable': [],
